@@ -188,7 +188,10 @@ func toEnumList(src val.EnumList, v interface{}) (val.EnumList, error) {
 }
 
 func toEnum(src val.EnumList, v interface{}) (val.Enum, error) {
-	if id, isNum := val.Conv(val.FmtInt32, v); isNum == nil {
+	if v == nil {
+		return val.Enum{}, fmt.Errorf("could not coerce nil into enum %v", src.String())
+	}
+	if id, isNum := val.Conv(val.FmtInt32, v); isNum == nil && id != nil {
 		if e, found := src.ById(id.Value().(int)); found {
 			return e, nil
 		}
